@@ -13,16 +13,19 @@ Variable has_prot : Z -> bool.
 Variable mf : Z -> V.
 Variable sf : Z -> V.
 Variable pre : bool.
+Variable ftag : Z -> Z.
+Variable sc0 : Z -> option (Z * V).
 Variable reqs : Z -> req.
+Hypothesis sc0_ok : forall k g x, sc0 k = Some (g, x) -> g = ftag k -> x = sf k.
 
 Notation full := (full V base over1 over2 has_prot).
-Notation step := (step V base over1 over2 has_prot mf sf).
-Notation run := (run V base over1 over2 has_prot mf sf).
-Notation init := (init V base pre).
+Notation step := (step V base over1 over2 has_prot mf sf ftag).
+Notation run := (run V base over1 over2 has_prot mf sf ftag).
+Notation init := (init V base pre sc0).
 Notation alone := (alone V base over1 over2 has_prot mf sf).
 Notation R := (fun sched s => run Repaired reqs sched (init Repaired reqs) = Some s).
 
-Local Ltac by_reach L := intros sched s; intros; eapply (L V base over1 over2 has_prot mf sf pre reqs); eauto; now exists sched.
+Local Ltac by_reach L := intros sched s; intros; eapply (L V base over1 over2 has_prot mf sf pre ftag sc0 reqs sc0_ok); eauto; now exists sched.
 
 Lemma r_built_once : forall sched s, R sched s -> b_gen s <= 1.
 Proof. by_reach built_once. Qed.
@@ -44,7 +47,7 @@ Lemma r_schedule_independent : forall sched1 sched2 s1 s2 t, R sched1 s1 -> R sc
   tpc (thr s1 t) = Done -> tpc (thr s2 t) = Done -> out (thr s1 t) = out (thr s2 t).
 Proof.
   intros sched1 sched2 s1 s2 t H1 H2.
-  apply (schedule_independent V base over1 over2 has_prot mf sf pre reqs); [now exists sched1|now exists sched2].
+  apply (schedule_independent V base over1 over2 has_prot mf sf pre ftag sc0 reqs sc0_ok); [now exists sched1|now exists sched2].
 Qed.
 
 Lemma r_memo_transparent : forall sched s, R sched s ->
@@ -58,7 +61,7 @@ Lemma r_attrs_transparent : forall sched s, R sched s ->
 Proof. by_reach attrs_transparent. Qed.
 
 Lemma r_sort_transparent : forall sched s, R sched s ->
-  (forall k x, scache s k = Some x -> x = sf k) /\
+  (forall k g x, scache s k = Some (g, x) -> g = ftag k -> x = sf k) /\
   (forall t ks, reqs t = RSort ks -> tpc (thr s t) = Done -> out (thr s t) = Some (PVals (map sf ks))).
 Proof. by_reach sort_transparent. Qed.
 
